@@ -22,4 +22,7 @@ def run(check):
     check.run_rule('C17.R1c', lambda c: rule_shared_windows(c, 'C17.R1'))
     from ..rules_modifiers import rule_cache_publication
     check.run_rule('C17.R3', lambda c: rule_cache_publication(c, 'C17.R3'))
+    from ..rules_windows import rule_thread_local_access, rule_flag_published_last
+    check.run_rule('C17.R1d', lambda c: rule_thread_local_access(c, 'C17.R1'))
+    check.run_rule('C17.R6', lambda c: rule_flag_published_last(c, 'C17.R6'))
     check.run_rule('C17.R2', lambda c: rule_shared_state_inventory(c, 'C17.R2'))
